@@ -337,6 +337,91 @@ Section Run.
   Definition variant_names (vs : list (vinfo * list (finfo * ty))) : list string :=
     map (fun v => vi_name (fst v)) (filter (fun v => negb (vi_skip (fst v))) vs).
 
+  (** the arm of the generated [from_list] selected by name [n]: the first non-skipped variant
+      with that effective name ([vconvs]: the implementers of each variant's field types) *)
+  Fixpoint enum_arm (vs : list (vinfo * list (finfo * ty))) (vconvs : list (list fm))
+           (n : string) (nested_ : nested) {struct vs} : option (res value) :=
+    match vs, vconvs with
+    | (vi, fs) :: r, cs :: cr =>
+        if (negb (vi_skip vi) && str_eqb (vi_name vi) n)%bool then
+          Some
+            (match vi_style vi with
+             | VsUnit =>
+                 match nested_ with
+                 | NPath _ _ => Ok (VVariant (vi_ident vi) [])
+                 | _ => Err (unsupported_format "non-path")
+                 end
+             | VsNewtype =>
+                 match cs with
+                 | c :: _ =>
+                     map_ok (fun v => VVariant (vi_ident vi) [("0", v)])
+                            (map_err (at_ (vi_name vi)) (from_meta c nested_))
+                 | [] => Panic "Newtype should have exactly one field"
+                 end
+             | VsStruct =>
+                 match nested_ with
+                 | NList _ _ _ items =>
+                     map_ok (VVariant (vi_ident vi))
+                            (parse_fields fs cs (vi_auk vi) (state0 fs) items (fun _ => Ok None) (at_ (vi_name vi)))
+                 | NBadList _ _ _ es msg => Err (from_syn es msg)
+                 | _ => Err (unsupported_format "non-list")
+                 end
+             end)
+        else enum_arm r cr n nested_
+    | _, _ => None
+    end.
+
+  (** the arm of the generated [from_string] *)
+  Fixpoint enum_str_arm (vs : list (vinfo * list (finfo * ty))) (vconvs : list (list fm)) (s : string)
+           {struct vs} : option (res value) :=
+    match vs, vconvs with
+    | (vi, fs) :: r, cs :: cr =>
+        if (negb (vi_skip vi) && str_eqb (vi_name vi) s)%bool then
+          Some
+            (match vi_style vi with
+             | VsUnit => Ok (VVariant (vi_ident vi) [])
+             | VsNewtype =>
+                 match cs with
+                 | c :: _ =>
+                     match from_none c with
+                     | Some v => Ok (VVariant (vi_ident vi) [("0", v)])
+                     | None => Err (unsupported_format "literal")
+                     end
+                 | [] => Panic "Newtype should have exactly one field"
+                 end
+             | VsStruct => Err (unsupported_format "literal")
+             end)
+        else enum_str_arm r cr s
+    | _, _ => None
+    end.
+
+  (** the generated [from_list] of an enum: arity match, then name dispatch *)
+  Definition enum_from_list (variants : list (vinfo * list (finfo * ty))) (vconvs : list (list fm))
+             (outer : list nested) : res value :=
+    match outer with
+    | [] => Err (new_err (KTooFewItems 1))
+    | [NLit _ _] => Err (unsupported_format "literal")
+    | [n] =>
+        let name := match meta_path n with Some p => path_to_string p | None => "" end in
+        match enum_arm variants vconvs name n with
+        | Some r => r
+        | None =>
+            Err (with_span (i_span (ninfo n))
+                   (match variants with
+                    | [] => new_err (KUnknownField name None)
+                    | _ => unknown_field_with_alts sugg sim name (variant_names variants)
+                    end))
+        end
+    | _ => Err (new_err (KTooManyItems 1))
+    end.
+
+  Definition enum_from_string (variants : list (vinfo * list (finfo * ty))) (vconvs : list (list fm))
+             (s : string) : res value :=
+    match enum_str_arm variants vconvs s with
+    | Some r => r
+    | None => Err (unknown_value s)
+    end.
+
   (** ** the implementer of every type *)
   Fixpoint impl_of (t : ty) : fm :=
     match t with
@@ -369,60 +454,7 @@ Section Run.
                               (fun _ => cdefault_value c t None) (fun e => e)))))
              None None None None None
     | TEnumR c wordv variants =>
-        let arm :=
-          fix arm (vs : list (vinfo * list (finfo * ty))) (n : string) (nested_ : nested) : option (res value) :=
-            match vs with
-            | [] => None
-            | (vi, fs) :: r =>
-                if (negb (vi_skip vi) && str_eqb (vi_name vi) n)%bool then
-                  Some
-                    (match vi_style vi with
-                     | VsUnit =>
-                         match nested_ with
-                         | NPath _ _ => Ok (VVariant (vi_ident vi) [])
-                         | _ => Err (unsupported_format "non-path")
-                         end
-                     | VsNewtype =>
-                         match fs with
-                         | (_, ft) :: _ =>
-                             map_ok (fun v => VVariant (vi_ident vi) [("0", v)])
-                                    (map_err (at_ (vi_name vi)) (from_meta (impl_of ft) nested_))
-                         | [] => Panic "Newtype should have exactly one field"
-                         end
-                     | VsStruct =>
-                         match nested_ with
-                         | NList _ _ _ items =>
-                             map_ok (VVariant (vi_ident vi))
-                                    (parse_fields fs (map (fun ft => impl_of (snd ft)) fs) (vi_auk vi)
-                                       (state0 fs) items (fun _ => Ok None) (at_ (vi_name vi)))
-                         | NBadList _ _ _ es msg => Err (from_syn es msg)
-                         | _ => Err (unsupported_format "non-list")
-                         end
-                     end)
-                else arm r n nested_
-            end in
-        let str_arm :=
-          fix str_arm (vs : list (vinfo * list (finfo * ty))) (s : string) : option (res value) :=
-            match vs with
-            | [] => None
-            | (vi, fs) :: r =>
-                if (negb (vi_skip vi) && str_eqb (vi_name vi) s)%bool then
-                  Some
-                    (match vi_style vi with
-                     | VsUnit => Ok (VVariant (vi_ident vi) [])
-                     | VsNewtype =>
-                         match fs with
-                         | (_, ft) :: _ =>
-                             match from_none (impl_of ft) with
-                             | Some v => Ok (VVariant (vi_ident vi) [("0", v)])
-                             | None => Err (unsupported_format "literal")
-                             end
-                         | [] => Panic "Newtype should have exactly one field"
-                         end
-                     | VsStruct => Err (unsupported_format "literal")
-                     end)
-                else str_arm r s
-            end in
+        let vconvs := map (fun vf : vinfo * list (finfo * ty) => map (fun ft => impl_of (snd ft)) (snd vf)) variants in
         mkFm None None
              (match ci_from_none c with
               | Some f => Some (match run_fn f VUnit with Ok (VSome v) => Some v | _ => None end)
@@ -433,29 +465,9 @@ Section Run.
               | None, Some vid => Some (Ok (VVariant vid []))
               | None, None => None
               end)
-             (Some (fun outer =>
-                      match outer with
-                      | [] => Err (new_err (KTooFewItems 1))
-                      | [NLit _ _] => Err (unsupported_format "literal")
-                      | [n] =>
-                          let name := match meta_path n with Some p => path_to_string p | None => "" end in
-                          match arm variants name n with
-                          | Some r => r
-                          | None =>
-                              Err (with_span (i_span (ninfo n))
-                                     (match variants with
-                                      | [] => new_err (KUnknownField name None)
-                                      | _ => unknown_field_with_alts sugg sim name (variant_names variants)
-                                      end))
-                          end
-                      | _ => Err (new_err (KTooManyItems 1))
-                      end))
+             (Some (enum_from_list variants vconvs))
              None None None
-             (Some (fun s =>
-                      match str_arm variants s with
-                      | Some r => r
-                      | None => Err (unknown_value s)
-                      end))
+             (Some (enum_from_string variants vconvs))
              None
     end.
 End Run.
